@@ -403,6 +403,9 @@ func fixTransferEncoding(requestMethod string, header Header) ([]string, error) 
 
 	delete(header, "Transfer-Encoding")
 
+	if len(raw) != 1 {
+		return nil, &badStringError{"too many transfer encodings", strings.Join(raw, ",")}
+	}
 	encodings := strings.Split(raw[0], ",")
 	te := make([]string, 0, len(encodings))
 	// TODO: Even though we only support "identity" and "chunked"
@@ -411,10 +414,6 @@ func fixTransferEncoding(requestMethod string, header Header) ([]string, error) 
 	// chunked encoding must always come first.
 	for _, encoding := range encodings {
 		encoding = strings.ToLower(strings.TrimSpace(encoding))
-		// "identity" encoding is not recorded
-		if encoding == "identity" {
-			break
-		}
 		if encoding != "chunked" {
 			return nil, &badStringError{"unsupported transfer encoding", encoding}
 		}
